@@ -268,8 +268,13 @@ def engine_b(c, rng):
             plans = plans[:33]
         # nothing configured at all: the documented defaults are in force (200 workers, 10000-byte buffer, allow-all CORS)
         plans += [(s0, 0) for s0 in ("thread_count", "request_allocation_size", "cors_allow_all")]
-        for s, mask in plans:
+        # always: a pool larger than 256 workers, given on the command line (the random draws above do not guarantee one)
+        plans.append(("thread_count", 4, "300"))
+        for plan in plans:
+            s, mask = plan[0], plan[1]
             ev, fv, cv = values_for(s, rng)
+            if len(plan) > 2:
+                cv = plan[2]
             port = server.free_port()
             base_cli = {"port": str(port), "thread_count": "3", "ip": "127.0.0.1"}
             env_a = {s: ev} if mask & 1 else {}
